@@ -2,7 +2,6 @@ package main
 
 import (
 	"encoding/json"
-	"go/types"
 	"golang.org/x/tools/go/ssa"
 	"os"
 	"path/filepath"
@@ -46,13 +45,11 @@ func (c *Ctx) loadAssumptions() {
 		}
 		if a.Fact == "separate" {
 			// instance separation used by the class-invariant verification (classinv.go)
-			tn := c.typeObj(a.Struct[0], a.Struct[1])
-			a.key = types.TypeString(tn.Type(), nil) + "." + c.fld(a.FieldRole)
+			a.key = c.fldKey(a.FieldRole)
 			separations = append(separations, a)
 			continue
 		}
-		tn := c.typeObj(a.Struct[0], a.Struct[1])
-		a.key = types.TypeString(tn.Type(), nil) + "." + c.fld(a.FieldRole)
+		a.key = c.fldKey(a.FieldRole)
 		fieldAssumptions = append(fieldAssumptions, a)
 	}
 	for _, a := range fieldAssumptions {
